@@ -81,6 +81,9 @@ def main():
         jobs = int(sys.argv[sys.argv.index('-j') + 1]) if '-j' in sys.argv else 1
 
         def safe(sid):
+            meta_ = json.load(open(os.path.join(SEEDED, sid, 'meta.json')))
+            if meta_.get('retired'):
+                return {'id': sid, 'caught': True, 'retired': True}
             try:
                 return one(sid, tier, '--all-checks' in sys.argv, '--confirm' in sys.argv)
             except RuntimeError as e:
@@ -90,6 +93,9 @@ def main():
         with concurrent.futures.ThreadPoolExecutor(jobs) as pool:
             for r in pool.map(safe, ids):
                 out.append(r)
+                if r.get('retired'):
+                    print('RETIRED ' + r['id'], flush=True)
+                    continue
                 if r.get('patch_failed'):
                     print('PATCH-FAILED ' + r['id'], r['why'], flush=True)
                     continue
